@@ -4,6 +4,7 @@ Require Import Coq.Lists.List.
 Require Import Coq.Arith.Arith.
 Require Import Urcu.CallRcu.CallRcuExec.
 Require Import Urcu.Futex.CrFutex.
+Require Import Urcu.Futex.Completion.
 Import ListNotations.
 
 (* a marker callback queued to helper h after the callbacks `pre` has run only after all of them (FIFO per helper) *)
@@ -30,4 +31,40 @@ Theorem C04_completion_no_lost_wakeup :
     hp s = H_Blocked -> (forall w : nat, wp s w = W_Done \/ wp s w = W_Enq) -> qn s = 0.
 Proof. exact (@Urcu.Futex.CrFutex.helper_no_lost_wakeup). Qed.
 Print Assumptions C04_completion_no_lost_wakeup.
+
+(* the reference-counted completion object of rcu_barrier(), any number of markers, every order of accesses and reference drops: nobody touches the object after its release, and it is released exactly when no holder uses it any more (each holder drops its reference as its last access) *)
+Theorem C04_completion_never_used_after_release :
+    forall (n : nat) (cs : list rchoice),
+    let s := rrun false cs (rinit (S n)) in bad s = false /\ (freed s = true <-> nusing (hs s) = 0).
+Proof. exact (@Urcu.Futex.Completion.completion_never_used_after_release). Qed.
+Print Assumptions C04_completion_never_used_after_release.
+
+(* sensitivity: a holder that drops its reference before its last access touches a released object *)
+Theorem C04_completion_put_before_last_access_refuted :
+    exists cs : list rchoice, bad (rrun true cs (rinit 2)) = true.
+Proof. exact (@Urcu.Futex.Completion.put_before_last_access_refuted). Qed.
+Print Assumptions C04_completion_put_before_last_access_refuted.
+
+(* wake-up handshake between the marker that brings the countdown to zero and the rcu_barrier() caller (other markers abstracted by nondeterminism; reachable state set computed and checked closed inside Coq): the caller leaves only with the countdown at zero, and once the last marker has finished its wake-up path the caller is not left asleep *)
+Theorem C04_barrier_returns_after_markers_and_is_not_lost :
+    forall cs : list hchoice,
+    let s := hrun true cs hinit in
+    (w s = W_Out -> bcpos s = false) /\ (last s = L_Done -> ~ (w s = W_Sleep /\ woken s = false)).
+Proof. exact (@Urcu.Futex.Completion.barrier_returns_after_markers_and_is_not_lost). Qed.
+Print Assumptions C04_barrier_returns_after_markers_and_is_not_lost.
+
+(* ... and from there the caller, running alone, returns within 8 of its own steps *)
+Theorem C04_barrier_caller_finishes :
+    forall cs : list hchoice,
+    let s := hrun true cs hinit in last s = L_Done -> w (hrun true (repeat CW 8) s) = W_Out.
+Proof. exact (@Urcu.Futex.Completion.barrier_caller_finishes). Qed.
+Print Assumptions C04_barrier_caller_finishes.
+
+(* sensitivity: FUTEX_WAKE issued before the store of 0 leaves the caller asleep for ever *)
+Theorem C04_wake_before_store_refuted :
+    exists cs : list hchoice,
+    let s := hrun false cs hinit in
+    last s = L_Done /\ w s = W_Sleep /\ woken s = false /\ bcpos s = false.
+Proof. exact (@Urcu.Futex.Completion.wake_before_store_refuted). Qed.
+Print Assumptions C04_wake_before_store_refuted.
 
